@@ -11,6 +11,9 @@ dft/*       DiscreteFourierTransform / ...Inverse._call_numpy and _call_pyfftw o
             the axes, ifftn(v) = conj(F(conj v)) / N, DFT inversion F(conj(F v)) = N conj v, rfftn / irfftn an inverse pair on real input,
             pyfftw_call by its documented contract): inverse(forward(x)) == x for both signs and half-complex; NumPy and FFTW back-ends
             return the same term; sign '+' forward == N * ifftn (conjugate-linear identity, not only for real data)
+ft-definition/*  BOUNDED (labelled so, never counted as proved): FourierTransform / FourierTransformInverse of both back-ends against the defining quadrature
+            sum on every basis vector of small grids (all axes subsets x per-axis shifts x sign x real / complex / half-complex): decides the pre- /
+            post-processing phase factors, inverse(forward(x)) == x, in-place == out-of-place, numpy == pyfftw on those shapes
 wavelet-adjoint/*  WaveletTransform.adjoint / WaveletTransformInverse.adjoint for an orthogonal wavelet: scale * partner with scale = 1 / w resp. w,
             w = cell volume over ALL axes (also for axes subsets), partner built on the very space with the same wavelet / levels / padding / axes
 """
@@ -37,7 +40,8 @@ META = {
     ],
     'assumptions': ['A1', 'A7'],
     'not_decided': ['the FFT kernels (numpy.fft / pyfftw) and PyWavelets themselves; wavelet coefficient flattening / cropping', 'continuous FourierTransform: convergence to the analytic transform of a Gaussian',
-                    'pre-processing phase factors and interpolation-kernel division beyond the frequency-range consistency', 'plan / temporary reuse in pyfftw_bindings', 'rounding'],
+                    'pre- / post-processing phase factors (complex exponentials) for ARBITRARY shapes: decided only by the bounded ft-definition units on the listed small shapes',
+                    'plan / temporary reuse in pyfftw_bindings beyond one call', 'rounding'],
 }
 
 FT = 'odl.trafos.util.ft_utils:'
@@ -454,6 +458,28 @@ def unit_wavelet_adjoint(cname, ndim, axes):
                 config={'class': cname, 'ndim': ndim, 'axes': list(axes)})
 
 
+def unit_ft_definition(shape, tier):
+    """BOUNDED stand-in (labelled bounded, never counted as proved): the continuous FourierTransform of both back-ends against its defining quadrature
+    sum  s / sqrt(2 pi) * sum_k f(x_k) exp(-+ i x_k xi_j) * sinc(xi_j s / 2 pi)  on EVERY basis vector of a small grid (the operator is linear: a basis decides
+    all inputs of that shape up to rounding), for every axes subset x per-axis shift x sign x real / complex / half-complex; the inverse recovers the input,
+    in-place == out-of-place, numpy == pyfftw.  This is where the pre- and post-processing phase factors (complex exponentials: outside the exact-real term
+    algebra of the deductive units) are decided; bound: the listed shapes."""
+    def run(ctx):
+        from contracts import replay_c18
+        for cfg in replay_c18.ft_definition_cases(tier):
+            if tuple(cfg['shape']) != tuple(shape):
+                continue
+            try:
+                bad, evals = replay_c18.ft_definition_check(cfg)
+            except Exception as e:
+                bad, evals = 'evaluation raised %s: %s' % (type(e).__name__, e), 0
+            ctx.evals += max(evals - 1, 0)
+            ctx.bounded('FourierTransform == defining sum on every basis vector; inverse recovers; in-place == out-of-place; numpy == pyfftw', not bad, cfg, detail=bad)
+    return Unit('ft-definition/shape=%s' % 'x'.join(map(str, shape)), run, funcs=[FO + 'FourierTransform._call_numpy', FO + 'FourierTransform._call_pyfftw',
+                FO + 'FourierTransformInverse._call_numpy', FO + 'FourierTransformInverse._call_pyfftw', FT + 'dft_preprocess_data', FT + 'dft_postprocess_data'],
+                kind='B', config={'shape': list(shape)}, bounded_in='grid shapes listed in the unit names (each axis <= 8 points), all basis vectors')
+
+
 def unit_canary():
     """must fail: conj(F(x)) claimed equal to N * ifftn(x) for complex x"""
     def run(ctx):
@@ -483,5 +509,12 @@ def units(tier, seed):
     for cn in ('WaveletTransform', 'WaveletTransformInverse'):
         for ndim, axes in ((1, (0,)), (2, (0, 1)), (2, (0,)), (2, (1,)), (3, (0, 2)), (3, (1,)), (3, (0, 1, 2))):
             us.append(unit_wavelet_adjoint(cn, ndim, axes))
+    from contracts import replay_c18
+    shapes = []
+    for cfg in replay_c18.ft_definition_cases(tier):
+        if tuple(cfg['shape']) not in shapes:
+            shapes.append(tuple(cfg['shape']))
+    for shp in shapes:
+        us.append(unit_ft_definition(shp, tier))
     us.append(unit_canary())
     return us
